@@ -102,6 +102,74 @@ def make_instance(rng, nind=1, trios=(), max_reads=6, max_cols=6, quals=QUALS, p
             "recomb": recomb}
 
 
+def make_profile_instance(rng, nind=1, trios=(), min_cols=9, max_cols=20, max_reads=12, levels=(0, 1, 2, 3, 4),
+                          quals=QUALS, prior_mode=None, recomb_choices=(0, 1, 3, 10, 20, 30)):
+    """Long read matrices with a NON-uniform coverage profile: the per-column target coverage is piecewise
+    constant with short segments (1-3 columns) whose levels are drawn from `levels` (dips and peaks next to each
+    other), reads of varying length are laid out greedily to follow it (a read ends where the target drops), some
+    columns stay uncovered.  All columns are kept (positions given explicitly), so that with >= 9 columns the sqrt
+    check-pointing stores every 3rd/4th backward column and re-computes the others from wide and narrow ones."""
+    n = rng.randint(min_cols, max_cols)
+    target = []
+    while len(target) < n:
+        lv = rng.choice(levels)
+        if target and lv == target[-1]:
+            lv = rng.choice(levels)
+        target += [lv] * rng.randint(1, 3)
+    target = target[:n]
+    cov = [0] * n
+    reads = []
+    for c in range(n - 1):
+        while cov[c] < target[c] and len(reads) < max_reads:
+            e = c + 1
+            while e + 1 < n and target[e + 1] > cov[e + 1] and rng.random() < 0.8:
+                e += 1
+            cols = [c] + [x for x in range(c + 1, e) if rng.random() >= 0.15] + [e]
+            reads.append({"sample": rng.randrange(nind), "vars": [[x, rng.randint(0, 1), rng.choice(quals)] for x in cols]})
+            for x in range(c, e + 1):
+                cov[x] += 1
+    if not reads:
+        reads.append({"sample": 0, "vars": [[0, 1, 10], [1, 0, 10]]})
+    reads.sort(key=lambda r: r["vars"][0][0])
+    pm = prior_mode or rng.choice(["uniform", "third", "dyadic", "dyadic", "skew"])
+    if pm == "nice":
+        pm = rng.choice(["uniform", "third", "dyadic"])
+    priors = []
+    for _ in range(nind):
+        row = []
+        for _ in range(n):
+            if pm == "uniform":
+                row.append([0.25, 0.5, 0.25])
+            elif pm == "third":
+                row.append([1 / 3.0, 1 / 3.0, 1 / 3.0])
+            elif pm == "dyadic":
+                a = rng.randint(1, 14)
+                b = rng.randint(1, 15 - a)
+                row.append([a / 16.0, b / 16.0, (16 - a - b) / 16.0])
+            else:
+                row.append([rng.choice([0.001, 0.5, 0.9]), rng.choice([0.01, 0.3]), rng.choice([0.001, 0.2, 0.7])])
+        priors.append(row)
+    return {"ncols": n, "nind": nind, "trios": [list(t) for t in trios], "reads": reads, "priors": priors,
+            "recomb": [rng.choice(recomb_choices) for _ in range(n)]}
+
+
+def checkpoint_profile(inst):
+    """does the instance exercise re-computation from mixed wide/narrow columns: k = floor(sqrt(n)) >= 3 and some
+    check-point block [mk, (m+1)k) has a column with <= 2 reads at offset >= 2 and a column with > 2 reads left of it"""
+    import math
+    n = inst["ncols"]
+    k = math.isqrt(n)
+    if k < 3:
+        return False
+    cov = [len(c) for c in active_columns(inst)]
+    for b in range(0, n, k):
+        blk = cov[b:b + k]
+        for off in range(2, len(blk)):
+            if blk[off] <= 2 and any(x > 2 for x in blk[:off]):
+                return True
+    return False
+
+
 def inst_key(inst):
     return json.dumps(inst, sort_keys=True)
 
